@@ -347,4 +347,14 @@ MUTANTS += [
     dict(prop='C17', name='cubic-shrinks-in-avoidance', edits=[(TCPG, "            if self.cwnd_cnt > self.cnt:\n                self.cwnd += self.mss", "            if self.cwnd_cnt > self.cnt:\n                self.cwnd += self.mss * 2")]),
     dict(prop='C17', name='fourth-dupack-no-inflation', edits=[(TCPG, "        elif self.dupack > 3:\n            self.congestion_control.more_dupacks_received()", "        elif self.dupack > 4:\n            self.congestion_control.more_dupacks_received()")]),
 ]
+
+RT = 'onl/sim/rt.py'
+MUTANTS += [
+    # ---- C20
+    dict(prop='C20', name='strict-test-ge', edits=[(RT, "        if self.strict and monotonic() - real_time > self.factor:", "        if self.strict and monotonic() - real_time >= self.factor:")]),
+    dict(prop='C20', name='lag-measured-against-now', edits=[(RT, "        real_time = self.real_start + (evt_time - self.env_start) * self.factor\n", "        real_time = self.real_start + (evt_time - self.env_start) * self.factor\n        late_ref = self.real_start + (self.now - self.env_start) * self.factor\n"), (RT, "        if self.strict and monotonic() - real_time > self.factor:", "        if self.strict and monotonic() - late_ref > self.factor * 3:")]),
+    dict(prop='C20', name='sleep-once-instead-of-looping', edits=[(RT, "            if delta <= 0:\n                break\n            sleep(delta)", "            if delta <= 0:\n                break\n            sleep(delta)\n            break")]),
+    dict(prop='C20', name='nonstrict-raises-when-very-late', edits=[(RT, "        if self.strict and monotonic() - real_time > self.factor:", "        if (self.strict or monotonic() - real_time > 4 * self.factor) and monotonic() - real_time > self.factor:")]),
+    dict(prop='C20', name='factor-ignored-for-initial-time', edits=[(RT, "        real_time = self.real_start + (evt_time - self.env_start) * self.factor", "        real_time = self.real_start + evt_time * self.factor - self.env_start")]),
+]
 MUTANTS.sort(key=lambda m: (m['prop'], m['name']))
